@@ -87,11 +87,19 @@ def project(res, meta, d=None, lcds=None):
         dk.append({"ln": e["LineNumber"], "pp": pp, "cp": sc.units(e["LatencyCP"]), "lcd": sc.units(e["LatencyLCD"]),
                    "unk": "tp_unknown" in [str(f) for f in e["Flags"]]})
     case["dk"] = dk
-    # overflow guard for the products TLC forms
+    # overflow guard for the products TLC forms: a cell whose comparison does not fit 32 bits is taken
+    # out of the case on both sides (counted), the rest of the report is still judged
+    skipped = 0
     for r, e in zip(rows, dk):
         vals = dict((x[0], x[1]) for x in e["pp"])
-        for p, dd, n in r["pp"]:
-            _guard(vals.get(p, 0), dd)
+        for cell in list(r["pp"]):
+            try:
+                _guard(vals.get(cell[0], 0), cell[1])
+            except sc.Unrepresentable:
+                r["pp"].remove(cell)
+                e["pp"] = [x for x in e["pp"] if x[0] != cell[0]]
+                skipped += 1
+    case["skipped_cells"] = skipped
     sm = d["Summary"]
     case["sum"] = {"pp": [[i + 1, sc.units(sm["PortPressure"][d["Target"]["Ports"][i]])] for i in range(len(ports))
                           if sc.units(sm["PortPressure"][d["Target"]["Ports"][i]]) != 0],
@@ -412,13 +420,13 @@ def main(tier, seed):
             fs_archs = [rnd.choice(archs[isa])]
         for arch in fs_archs:
             for fixed in (False, True):
-                ign = rnd.random() < 0.5
-                via = "cli" if rnd.random() < (0.04 if not quick else 0.08) else "api"
-                n_cli += via == "cli"
-                o = dict(fixed=fixed, ign=ign, big=unmarked, via=via)
-                if unmarked:
-                    o["lcd_timeout"] = 2  # 345 lines analysed as a whole: keep the LCD search short
-                add("file", rel, isa, arch, **o)
+                for ign in ((rnd.random() < 0.5,) if quick else (False, True)):
+                    via = "cli" if rnd.random() < (0.04 if not quick else 0.08) else "api"
+                    n_cli += via == "cli"
+                    o = dict(fixed=fixed, ign=ign, big=unmarked, via=via)
+                    if unmarked:
+                        o["lcd_timeout"] = 2  # 345 lines analysed as a whole: keep the LCD search short
+                    add("file", rel, isa, arch, **o)
         if defaults[isa] not in empty and (not quick or rnd.random() < 0.5):
             o = dict(fixed=rnd.random() < 0.5, ign=rnd.random() < 0.5, big=unmarked)
             if unmarked:
@@ -488,6 +496,13 @@ def main(tier, seed):
         o = j[1][4] if j[0] == "run" else {}
         if "error" in res:
             etype = res["error"].split(":")[0]
+            if not (res["where"].startswith("frontend.py") or res["where"].startswith("osaca.py")):
+                # the analysis itself failed before any report existed (parser / semantics / graph stage):
+                # nothing for C13 to compare; recorded, judged by the properties of those stages
+                k = "%s:%s" % (res["where"], etype)
+                run.extra.setdefault("analysis_failed_before_report", {})
+                run.extra["analysis_failed_before_report"][k] = run.extra["analysis_failed_before_report"].get(k, 0) + 1
+                continue
             sig = "C13:exception:%s:%s:%s" % (res["where"], etype, "fixed" if (o.get("fixed")) else "optimal")
             _fail(run, sig, "%s (%s, arch %s, options %s)" % (res["error"], meta.get("src") or o.get("gen") or "generated",
                                                            meta.get("arch"), meta.get("opts")), meta)
@@ -533,6 +548,8 @@ def main(tier, seed):
                     run.divergence("block-order", {"id": c["id"], "blocks": c["blocks"], "expected": exp})
         cases.append(c)
         byid[c["id"]] = c
+        if c.get("skipped_cells"):
+            run.extra["cells_beyond_32bit_skipped"] = run.extra.get("cells_beyond_32bit_skipped", 0) + c["skipped_cells"]
     run.note("unrepresentable_cases", n_unrep)
     run.note("cube_combinations_realised", len(cube_seen))
     run.note("cube_combinations_emitted", len(cube) * len([i for i in defaults if defaults[i] not in empty]))
@@ -551,9 +568,9 @@ def main(tier, seed):
         if "cell" not in selftest and any(r["pp"] for r in t["rows"]):
             u = copy.deepcopy(t)
             u["id"] = "selftest-cell"
-            [r for r in u["rows"] if r["pp"]][0]["pp"][0][2] += 2
+            [r for r in u["rows"] if r["pp"]][0]["pp"][0][2] += 1000   # far off: wrong for any implementation
             selftest["selftest-cell"] = (u, "cell:pp")
-        if "blocks" not in selftest and "ArchWarn" not in t["blocks"]:
+        if "blocks" not in selftest and "ArchWarn" not in t["blocks"] and t["fl"]["arch"]:
             u = copy.deepcopy(t)
             u["id"] = "selftest-blocks"
             u["blocks"] = u["blocks"][:1] + ["ArchWarn"] + u["blocks"][1:]
@@ -568,7 +585,7 @@ def main(tier, seed):
         if "total" not in selftest and t["tot"]["pp"]:
             u = copy.deepcopy(t)
             u["id"] = "selftest-total"
-            u["tot"]["pp"][0][2] += 2
+            u["tot"]["pp"][0][2] += 1000
             selftest["selftest-total"] = (u, "total:pp")
             selftest["total"] = None
         if "selftest-cell" in selftest:
